@@ -508,7 +508,7 @@ class G:
                     pats = pats[:-1] + ["default"]
         for k, pat in enumerate(pats):
             at = narrow if (narrow is not None and k < len(pats) - 1) else t
-            if narrow is not None and k == len(pats) - 1 and self.chance(6):
+            if narrow is not None and k == len(pats) - 1 and narrow.bits <= 32 and self.chance(6):
                 # a value of the wide arm that does not fit the narrow type
                 e = Lit(t, narrow.max + 1 + self.int(0, 200))
             else:
